@@ -140,32 +140,32 @@ Section load.
     | (k0, v0) :: r => if ueqb k k0 then (k0, v) :: r else (k0, v0) :: sdict_set k v r
     end.
 
-  (* SafeConstructor.flatten_mapping: merge keys *)
+  (* SafeConstructor.flatten_mapping: merge keys.  Top-level loops parametrised by the recursive call. *)
+  Fixpoint flatten_each (rec : list (node * node) -> result (list (node * node))) (xs : list node)
+    : result (list (list (node * node))) :=
+    match xs with
+    | [] => Ok []
+    | Map _ sub _ :: xr => s <- rec sub ;; r' <- flatten_each rec xr ;; Ok (s :: r')
+    | _ :: _ => Err EYaml
+    end.
+  Fixpoint flatten_go (rec : list (node * node) -> result (list (node * node))) (l merge rest : list (node * node))
+    : result (list (node * node)) :=
+    match l with
+    | [] => Ok (merge ++ rest)
+    | (k, v) :: r =>
+        if ueqb (ntag k) tag_merge then
+          match v with
+          | Map _ sub _ => sub' <- rec sub ;; flatten_go rec r (merge ++ sub') rest
+          | Seq _ subs _ => subs' <- flatten_each rec subs ;; flatten_go rec r (merge ++ List.concat (rev subs')) rest
+          | _ => Err EYaml
+          end
+        else if ueqb (ntag k) tag_value then flatten_go rec r merge (rest ++ [(set_tag tag_str k, v)])
+        else flatten_go rec r merge (rest ++ [(k, v)])
+    end.
   Fixpoint flatten (fuel : nat) (ps : list (node * node)) : result (list (node * node)) :=
     match fuel with
     | O => Err EFuel
-    | S f =>
-        let fix go (l : list (node * node)) (merge rest : list (node * node)) : result (list (node * node)) :=
-          match l with
-          | [] => Ok (merge ++ rest)
-          | (k, v) :: r =>
-              if ueqb (ntag k) tag_merge then
-                match v with
-                | Map _ sub _ => sub' <- flatten f sub ;; go r (merge ++ sub') rest
-                | Seq _ subs _ =>
-                    subs' <- (fix each (xs : list node) : result (list (list (node * node))) :=
-                                match xs with
-                                | [] => Ok []
-                                | Map _ sub _ :: xr => s <- flatten f sub ;; r' <- each xr ;; Ok (s :: r')
-                                | _ :: _ => Err EYaml
-                                end) subs ;;
-                    go r (merge ++ List.concat (rev subs')) rest
-                | _ => Err EYaml
-                end
-              else if ueqb (ntag k) tag_value then go r merge (rest ++ [(set_tag tag_str k, v)])
-              else go r merge (rest ++ [(k, v)])
-          end in
-        go ps [] []
+    | S f => flatten_go (flatten f) ps [] []
     end.
 
   (* Constructor.__type_matches on constructed values *)
@@ -203,21 +203,64 @@ Section load.
   Definition self_name : ustring := u "self".
   Definition extra_name : ustring := u "_yatiml_extra".
 
+  (* loops of the constructor, parametrised by the recursive call *)
+  Fixpoint construct_items (rec : node -> result value) (l : list node) : result (list value) :=
+    match l with
+    | [] => Ok []
+    | x :: r => x' <- rec x ;; r' <- construct_items rec r ;; Ok (x' :: r')
+    end.
+  Fixpoint construct_pairs (rec : node -> result value) (l : list (node * node)) (acc : list (value * value))
+    : result (list (value * value)) :=
+    match l with
+    | [] => Ok acc
+    | (k, v) :: r =>
+        kv <- rec k ;;
+        if negb (hashable kv) then Err EYaml
+        else vv <- rec v ;; construct_pairs rec r (dict_set kv vv acc)
+    end.
+  (* construct_mapping(node, deep=True) *)
+  Definition construct_map (fuel : nat) (rec : node -> result value) (ps : list (node * node))
+    : result (list (value * value)) :=
+    ps' <- flatten fuel ps ;; construct_pairs rec ps' [].
+
+  Definition str_keyed (ps : list (node * node)) : bool :=
+    forallb (fun kv => match fst kv with Scalar t _ _ => ueqb t tag_str | _ => false end) ps.
+  Definition strip_unknown (known : list ustring) (ps : list (node * node)) : list (node * node) :=
+    map (fun kv => if umem (key_text' (fst kv)) known then kv else (fst kv, strip_tags (snd kv))) ps.
+  (* the constructed mapping, read as keyword arguments: its keys are the str keys of the node *)
+  Definition kwargs_of (mapping : list (value * value)) : list (ustring * value) :=
+    flat_map (fun kv => match fst kv with VStr s => [(s, snd kv)] | _ => [] end) mapping.
+  Definition main_args (params : list param) (kw : list (ustring * value)) : list (ustring * value) :=
+    flat_map (fun p => match uassoc (p_name p) kw with Some v => [(p_name p, v)] | None => [] end) params.
+  Definition extra_args (known : list ustring) (kw : list (ustring * value)) : list (value * value) :=
+    map (fun kv => (VStr (fst kv), snd kv)) (filter (fun kv => negb (umem (fst kv) known)) kw).
+
+  (* yatiml.constructors.Constructor.__call__, given the constructed mapping *)
+  Definition build_object (k : cls) (params : list param) (extra : bool) (mapping : list (value * value)) : result value :=
+    let known := map p_name params in
+    let kw := kwargs_of mapping in
+    (* __check_no_missing_attributes *)
+    if negb (forallb (fun p => match uassoc (p_name p) kw with
+                               | None => negb (p_required p)
+                               | Some v => type_matches v (p_ty p) end) params)
+    then Err ERecognition
+    (* __type_check_attributes: no extraneous keys unless _yatiml_extra; 'self' passes here and fails in
+       __init__; a document key '_yatiml_extra' fails its OrderedDict annotation *)
+    else if negb extra && negb (forallb (fun kv => umem (fst kv) known || ueqb (fst kv) self_name) kw)
+    then Err ERecognition
+    else if existsb (fun kv => ueqb (fst kv) self_name || ueqb (fst kv) extra_name) kw
+    then Err ERecognition
+    else
+      (* keyword arguments, listed in signature order (keyword passing is order-free) *)
+      let args := if extra then main_args params kw ++ [(extra_name, VDict (extra_args known kw))]
+                  else main_args params kw in
+      if c_init_ok k args then Ok (VObj (c_name k) args) else Err ERecognition.
+
   Fixpoint construct (fuel : nat) (n : node) {struct fuel} : result value :=
     match fuel with
     | O => Err EFuel
     | S f =>
         let tg := ntag n in
-        let construct_map (ps : list (node * node)) : result (list (value * value)) :=
-          ps' <- flatten fuel ps ;;
-          (fix go (l : list (node * node)) (acc : list (value * value)) : result (list (value * value)) :=
-             match l with
-             | [] => Ok acc
-             | (k, v) :: r =>
-                 kv <- construct f k ;;
-                 if negb (hashable kv) then Err EYaml
-                 else vv <- construct f v ;; go r (dict_set kv vv acc)
-             end) ps' [] in
         match class_of_tag reg tg with
         | Some k =>
             match c_shape k with
@@ -233,35 +276,10 @@ Section load.
                 match n with
                 | Map _ ps m =>
                     (* __strip_extra_attributes: keys must be str scalars; strip what is not a parameter *)
-                    let known := map p_name params in
-                    if negb (forallb (fun kv => match fst kv with Scalar t _ _ => ueqb t tag_str | _ => false end) ps)
-                    then Err ERecognition
+                    if negb (str_keyed ps) then Err ERecognition
                     else
-                      let ps1 := map (fun kv => if umem (key_text' (fst kv)) known then kv
-                                                else (fst kv, strip_tags (snd kv))) ps in
-                      mapping <- construct_map ps1 ;;
-                      (* keys are str scalars, hence VStr *)
-                      let kw := fold_left (fun acc kv => match fst kv with VStr s => sdict_set s (snd kv) acc | _ => acc end)
-                                          mapping [] in
-                      (* __check_no_missing_attributes *)
-                      if negb (forallb (fun p => match uassoc (p_name p) kw with
-                                                 | None => negb (p_required p)
-                                                 | Some v => type_matches v (p_ty p) end) params)
-                      then Err ERecognition
-                      (* __type_check_attributes: no extraneous keys unless _yatiml_extra; 'self' passes here and
-                         fails in __init__; a document key '_yatiml_extra' fails its OrderedDict annotation *)
-                      else if negb extra && negb (forallb (fun kv => umem (fst kv) known || ueqb (fst kv) self_name) kw)
-                      then Err ERecognition
-                      else if existsb (fun kv => ueqb (fst kv) self_name || ueqb (fst kv) extra_name) kw
-                      then Err ERecognition
-                      else
-                        (* keyword arguments, listed in signature order (keyword passing is order-free) *)
-                        let main := flat_map (fun p => match uassoc (p_name p) kw with
-                                                       | Some v => [(p_name p, v)] | None => [] end) params in
-                        let extras := filter (fun kv => negb (umem (fst kv) known)) kw in
-                        let args := if extra then main ++ [(extra_name, VDict (map (fun kv => (VStr (fst kv), snd kv)) extras))]
-                                    else main in
-                        if c_init_ok k args then Ok (VObj (c_name k) args) else Err ERecognition
+                      mapping <- construct_map fuel (construct f) (strip_unknown (map p_name params) ps) ;;
+                      build_object k params extra mapping
                 | _ => Err ERecognition
                 end
             end
@@ -278,13 +296,10 @@ Section load.
                                         else Err (EPy PyOther)
                        | r => r end
               | Seq t items _ =>
-                  if ueqb t tag_seq then
-                    l <- (fix go (l : list node) : result (list value) :=
-                            match l with [] => Ok [] | x :: r => x' <- construct f x ;; r' <- go r ;; Ok (x' :: r') end) items ;;
-                    Ok (VList l)
+                  if ueqb t tag_seq then l <- construct_items (construct f) items ;; Ok (VList l)
                   else Err EYaml
               | Map t ps _ =>
-                  if ueqb t tag_map then d <- construct_map ps ;; Ok (VDict d) else Err EYaml
+                  if ueqb t tag_map then d <- construct_map fuel (construct f) ps ;; Ok (VDict d) else Err EYaml
               end
         end
     end.
